@@ -2,7 +2,7 @@
 //!
 //! Pipeline per text: parse -> codegen as `mos build` configures it (only when the parse is
 //! clean, as the CLI does) -> codegen in the language server's configuration (greedy analysis, run
-//! on every tree, also with parse errors, as the server does) -> format -> listing (1 and 8 bytes
+//! on every tree, also with parse errors, as the server does) -> bank images -> format -> listing (1 and 8 bytes
 //! per line). Non-termination is decided deterministically with the pass observer (hook H1): a
 //! recurring block of pass digests = cycle; fuel exhausted = unbounded work.
 
@@ -135,6 +135,25 @@ fn pipeline_inner(files: &[(String, String)], fuel: i64, out: &mut Outcome) {
                         Some(ctx) => {
                             if !greedy {
                                 out.built = true;
+                            }
+                            if !greedy {
+                                // what `mos build` does next: the segments are merged into the bank images
+                                crate::util::watchdog::stage("bank-images");
+                                let r = guard(|| {
+                                    let mut bw = mos_core::io::BinaryWriter {};
+                                    bw.merge_segments(ctx).map(|b| b.len()).map_err(|e| diags_of(&e))
+                                });
+                                match r {
+                                    Err(p) => out.problems.push(("bank-images".into(), format!("panic:{}", p.site), p.message)),
+                                    Ok(Err(d)) => {
+                                        out.built = false;
+                                        if d.is_empty() {
+                                            out.problems.push(("bank-images".into(), "silent:no-binary".into(), "merging the segments failed without a diagnostic".into()));
+                                        }
+                                        check_locations("bank-images", &d, files, out)
+                                    }
+                                    Ok(Ok(_)) => {}
+                                }
                             }
                             crate::util::watchdog::stage("listing");
                             for n in [1usize, 8] {
@@ -322,6 +341,33 @@ fn stress_programs() -> Vec<(String, Vec<Stmt>)> {
             p.push(label("fwd"));
             p.push(imp("rts"));
             out.push(("near-limit-branch".to_string(), p));
+        }
+    }
+    // two segments of one bank whose written ranges relate in every way (disjoint, adjacent, overlapping, one
+    // enclosing the other, equal), in both definition orders; the second range made with a pc assignment
+    {
+        let ranges: [(i64, i64); 6] = [(0x1000, 0x1004), (0x1004, 0x1008), (0x1002, 0x1006), (0x0ff0, 0x1010), (0x1001, 0x1003), (0x2000, 0x2002)];
+        for (ai, a) in ranges.iter().enumerate() {
+            for (bi, b) in ranges.iter().enumerate() {
+                let seg = |name: &str, r: &(i64, i64)| -> Vec<Stmt> {
+                    vec![
+                        Stmt::Define { kind: "segment", pairs: vec![("name".into(), string(name)), ("start".into(), hex(r.0))] },
+                    ]
+                };
+                let body = |name: &str, r: &(i64, i64)| -> Stmt {
+                    // first and last byte of the range are written, the program counter jumps in between
+                    Stmt::Segment {
+                        name: string(name),
+                        block: Some(vec![byte(vec![num(1)]), Stmt::PcSet(hex(r.1 - 1)), byte(vec![num(2)])]),
+                    }
+                };
+                let mut p = seg("sa", a);
+                p.extend(seg("sb", b));
+                p.push(body("sa", a));
+                p.push(body("sb", b));
+                let _ = (ai, bi);
+                out.push(("segment-ranges".to_string(), p));
+            }
         }
     }
     // label whose position depends on a conditional that depends on the label
@@ -811,7 +857,7 @@ pub fn run(ctx: &Ctx, replay: Option<&Value>, rest: &[String]) -> i32 {
     real_binary_cases(ctx);
     ctx.finish(
         "exploration",
-        "(a) every single-character edit of the production-covering corpus and (reduced) of the examples, all token strings up to length 3/4, each pushed through parse -> codegen(build) -> codegen(language-server mode) -> format -> listing(1, 8); (b) 17 directive/operator positions x 31 integer arguments incl. 0, negatives, 2^63-1 and literals of 20/40/100 digits in each radix, all pairs for / and %; names with dots/spaces; (c) all import graphs over 2 and 3 files (each file may import any subset incl. itself and a missing file; 4 files without missing file in thorough), also with every import spelled `./name`, one child process per graph; (d) convergence stress programs; (f) every nest of depth <= 3 (quick) / 4 (thorough) over 14 block constructs (taken / untaken / undefined conditionals, segment, scopes, loops incl. 0 iterations, invoked and uninvoked macros, test, import with block) x 3 leaves, each level followed by a statement of its own, and macros that invoke themselves or each other 1-3 times (unguarded, counting down, never ending; invoked once, twice or never); (e) invalid UTF-8 / directory / missing / unreadable files through the real binary. Non-termination is decided by recurring pass-state digests and a fuel counter, never by a clock. non-trivial = distinct input that parses without diagnostics (so that code generation, formatting and listing run) or any import-graph / integer / stress case",
+        "(a) every single-character edit of the production-covering corpus and (reduced) of the examples, all token strings up to length 3/4, each pushed through parse -> codegen(build) -> codegen(language-server mode) -> format -> listing(1, 8); (b) 17 directive/operator positions x 31 integer arguments incl. 0, negatives, 2^63-1 and literals of 20/40/100 digits in each radix, all pairs for / and %; names with dots/spaces; (c) all import graphs over 2 and 3 files (each file may import any subset incl. itself and a missing file; 4 files without missing file in thorough), also with every import spelled `./name`, one child process per graph; (d) convergence stress programs and all pairs of 6 segment ranges in one bank (disjoint, adjacent, overlapping, enclosing, equal; both orders), followed by the bank image merge; (f) every nest of depth <= 3 (quick) / 4 (thorough) over 14 block constructs (taken / untaken / undefined conditionals, segment, scopes, loops incl. 0 iterations, invoked and uninvoked macros, test, import with block) x 3 leaves, each level followed by a statement of its own, and macros that invoke themselves or each other 1-3 times (unguarded, counting down, never ending; invoked once, twice or never); (e) invalid UTF-8 / directory / missing / unreadable files through the real binary. Non-termination is decided by recurring pass-state digests and a fuel counter, never by a clock. non-trivial = distinct input that parses without diagnostics (so that code generation, formatting and listing run) or any import-graph / integer / stress case",
         true,
         &[
             "not all byte strings: single edits of a corpus, short token strings, finite menus",
